@@ -129,6 +129,7 @@ type loopInfo struct {
 	variant string // value at head
 	hvars   map[string]TV
 	writes  map[string]bool
+	head    *state
 }
 
 func (fc *fnCtx) abstract(format string, a ...interface{}) {
@@ -243,6 +244,18 @@ func (fr *frame) oblige(st *state, kind, anchor string, pos token.Pos, cond stri
 	fc.obls = append(fc.obls, o)
 }
 
+// CoverQuery asks whether the obligation's program point is reachable under the assumptions.
+func (o *Obligation) CoverQuery(header string) string {
+	var sb strings.Builder
+	sb.WriteString(header)
+	for _, l := range o.script.lines[:o.Prefix] {
+		sb.WriteString(l)
+		sb.WriteString("\n")
+	}
+	fmt.Fprintf(&sb, "(assert %s)\n(check-sat)\n", o.Reach)
+	return sb.String()
+}
+
 func (o *Obligation) Query(header string, wantModel bool) string {
 	var sb strings.Builder
 	sb.WriteString(header)
@@ -319,6 +332,11 @@ func (e *Engine) genFunction(fn *ssa.Function) (fc *fnCtx, err error) {
 	// returns
 	for _, rr := range fr.retStates {
 		env := fr.specEnv(rr.st, fr.old)
+		for k, v := range fr.localsAt(rr.instr.Block()) {
+			if _, ok := env.vars[k]; !ok {
+				env.vars[k] = v
+			}
+		}
 		fr.bindResults(env, rr.results)
 		for i, en := range fc.c.Ensures {
 			label := en.Label
@@ -701,6 +719,42 @@ func (fr *frame) loopVars(h *ssa.BasicBlock) map[string]TV {
 	return vars
 }
 
+// localsAt: uniquely-defined named locals whose definition dominates block b.
+func (fr *frame) localsAt(b *ssa.BasicBlock) map[string]TV {
+	vars := map[string]TV{}
+	u := fr.fc.e.u
+	cands := map[string]ssa.Value{}
+	multi := map[string]bool{}
+	for _, bb := range fr.fn.Blocks {
+		for _, in := range bb.Instrs {
+			if dr, ok := in.(*ssa.DebugRef); ok && !dr.IsAddr {
+				id, ok := dr.Expr.(*ast.Ident)
+				if !ok {
+					continue
+				}
+				if prev, ok := cands[id.Name]; ok && prev != dr.X {
+					multi[id.Name] = true
+				}
+				cands[id.Name] = dr.X
+			}
+		}
+	}
+	for n, v := range cands {
+		if multi[n] {
+			continue
+		}
+		if in, ok := v.(ssa.Instruction); ok {
+			if !in.Block().Dominates(b) {
+				continue
+			}
+		}
+		if t, ok := fr.regs[v]; ok {
+			vars[n] = TV{T: t, Sort: u.sortOf(v.Type()), Typ: v.Type()}
+		}
+	}
+	return vars
+}
+
 // enterLoop: assert invariants on entry edges, havoc, assume invariants.
 func (fr *frame) enterLoop(h *ssa.BasicBlock, li *loopInfo, cur *state) {
 	fc := fr.fc
@@ -765,6 +819,7 @@ func (fr *frame) enterLoop(h *ssa.BasicBlock, li *loopInfo, cur *state) {
 	sc.assume(fmt.Sprintf("(>= %s %s)", cur.alloc, oldAlloc))
 	// 3. assume invariants
 	li.hvars = fr.loopVars(h)
+	li.head = cur.clone()
 	if spec != nil {
 		env := fr.specEnv(cur, fr.old)
 		for k, v := range li.hvars {
@@ -827,6 +882,27 @@ func (fr *frame) backEdge(p *ssa.BasicBlock, h *ssa.BasicBlock, es *state) {
 				label = fmt.Sprintf("i%d", j+1)
 			}
 			fr.oblige(es, "inv", fmt.Sprintf("loop%d.%s.step", li.ordinal, label), loopPos(h), env.evalBool(inv.Expr, inv.Src), inv.Src)
+		}
+		if len(li.spec.Steps) > 0 {
+			env.prev = li.head
+			env.prevVars = map[string]TV{}
+			for phi, v := range saved {
+				if phi.Comment != "" {
+					env.prevVars[phi.Comment] = TV{T: v, Sort: fr.fc.e.u.sortOf(phi.Type()), Typ: phi.Type()}
+				}
+			}
+			for k, v := range fr.localsAt(p) {
+				if _, ok := env.vars[k]; !ok {
+					env.vars[k] = v
+				}
+			}
+			for j, sp := range li.spec.Steps {
+				label := sp.Label
+				if label == "" {
+					label = fmt.Sprintf("s%d", j+1)
+				}
+				fr.oblige(es, "step", fmt.Sprintf("loop%d.%s", li.ordinal, label), loopPos(h), env.evalBool(sp.Expr, sp.Src), sp.Src)
+			}
 		}
 		if li.spec.Decreases != nil {
 			tv := env.eval(li.spec.Decreases.Expr)
@@ -1170,4 +1246,22 @@ func (fr *frame) anchorText(pos token.Pos, want string) string {
 		}
 	}
 	return ""
+}
+
+// genLemmas produces one obligation per lemma of the contract files.
+func (e *Engine) genLemmas() *fnCtx {
+	fc := &fnCtx{e: e, key: "speclib", c: &FuncContract{}, sc: &Script{}, heap0: map[string]string{}, unmodelled: map[string]bool{},
+		used: map[string]bool{}, names: map[string]int{}, inputs: map[string]string{}}
+	fc.emitAxioms()
+	for _, ax := range e.contracts.Axioms {
+		if !ax.Lemma {
+			continue
+		}
+		env := &specEnv{fc: fc, vars: map[string]TV{}, pkg: ax.Pkg}
+		t := env.evalBool(ax.Expr, ax.Src)
+		o := &Obligation{Name: "speclib#lemma:" + ax.Name, Func: "speclib", Kind: "lemma", Anchor: ax.Name, Prefix: len(fc.sc.lines),
+			Reach: "true", Cond: t, Desc: ax.Src, script: fc.sc, Inputs: fc.inputs}
+		fc.obls = append(fc.obls, o)
+	}
+	return fc
 }
